@@ -236,6 +236,13 @@ func c15One(c *core.Ctx, r *core.Result, sc c15Scenario) {
 			if h == era.V204+5 {
 				credit(h, mint, "PEG", 3e8, &t)
 			}
+			if h == era.V204Burn+3 {
+				credit(h, mint, "PEG", 2e8, &t) // after the one-time burn: must stay
+				credit(h, mint, "pUSD", 1e8, &t)
+			}
+			if h == era.V204-3 {
+				credit(h, mint, "pUSD", 6e8, &t) // before the mint
+			}
 		}
 		graded := h%144 == 0 || h%144 == 143 || len(t) > 0 || h == era.DevRewards || h == era.V202 || h == era.V204 || h == era.V204Burn
 		switch {
